@@ -66,3 +66,53 @@ package dnsdata
 //@ ensures[combined] !r.NoPrefixSets ==> bigbits[addr(r.prefixset)][nb]
 //@ ensures[v4] !r.NoPrefixSets && uf.isv4ip(s.ipnet.IP) ==> bigbits[addr(r.v4prefixset)][nb] && bigbits[addr(r.v6prefixset)] == old(bigbits)[addr(r.v6prefixset)]
 //@ ensures[v6] !r.NoPrefixSets && !uf.isv4ip(s.ipnet.IP) ==> bigbits[addr(r.v6prefixset)][nb] && bigbits[addr(r.v4prefixset)] == old(bigbits)[addr(r.v4prefixset)]
+
+// ---- C01 / C04: the composite '.' record ------------------------------------------------------------------
+// The SOA derived from a '.' line is a record of the same owner, the same primary name server and the SAME
+// LOCATION as the NS the line declares (so it is visible to exactly the clients the line is meant for);
+// its TTL follows the line's TTL only when that is 0.
+//@ extern bytes Join
+//@ ensures fresh(result) || result == nil
+//@ func Rdot.UnmarshalText
+//@ flag skip frame
+//@ requires r != nil
+//@ ensures[loc] err == nil ==> r.Rsoa.lo == r.Rns.Rns1.lo
+//@ ensures[owner] err == nil ==> r.Rsoa.dom == r.Rns.Rns1.dom && r.Rsoa.ns == r.Rns.Rns1.ns
+//@ ensures[ttl0] err == nil && r.Rns.Rns1.ttl == 0 ==> r.Rsoa.ttl == 0
+//@ ensures[codec] err == nil ==> r.Rsoa.c == r.c
+
+//@ func Rsoa.loadDefaults
+//@ modifies r
+//@ ensures[soa] r.ref == 16384 && r.ret == 2048 && r.exp == 1048576 && r.min == 2560 && r.ttl == 2560
+//@ ensures[serial] r.c != nil ==> r.ser == r.c.Serial
+//@ ensures[keeps] r.c == old(r.c) && r.dom == old(r.dom) && r.lo == old(r.lo) && r.ns == old(r.ns) && r.adm == old(r.adm)
+
+// ---- C01: default field values (tinydns-data: TTL 86400 for ordinary records, 259200 for NS, 2560 for SOA;
+// ---- weight 1 for addresses) -----------------------------------------------------------------------------
+//@ func Rns1.loadDefaults
+//@ modifies r
+//@ ensures r.ttl == 259200 && r.dom == old(r.dom) && r.lo == old(r.lo) && r.ns == old(r.ns) && r.c == old(r.c)
+//@ func Raddr.loadDefaults
+//@ modifies r
+//@ ensures r.ttl == 86400 && r.weight == 1 && r.dom == old(r.dom) && r.lo == old(r.lo) && r.ip == old(r.ip) && r.c == old(r.c)
+//@ func Rpaddr.loadDefaults
+//@ modifies r
+//@ ensures r.ttl == 86400
+//@ func Rmx1.loadDefaults
+//@ modifies r
+//@ ensures r.ttl == 86400
+//@ func Rsrv1.loadDefaults
+//@ modifies r
+//@ ensures r.ttl == 86400
+//@ func Rcname.loadDefaults
+//@ modifies r
+//@ ensures r.ttl == 86400
+//@ func Rptr.loadDefaults
+//@ modifies r
+//@ ensures r.ttl == 86400
+//@ func Rtxt.loadDefaults
+//@ modifies r
+//@ ensures r.ttl == 86400
+//@ func Raux.loadDefaults
+//@ modifies r
+//@ ensures r.ttl == 86400
